@@ -159,14 +159,24 @@ Definition q_combination (n r : brat) : res brat :=
   do nrf <- q_factorial (rat_add n (rat_neg r));
   rat_div nf (rat_mul rf nrf).
 
-Definition q_permutation (n r : brat) : res brat :=
+(* permutation before fend 07532bc: r itself was never looked at *)
+Definition q_permutation_old (n r : brat) : res brat :=
   do nf <- q_factorial n;
   do nrf <- q_factorial (rat_add n (rat_neg r));
   rat_div nf nrf.
 
-(* classifier of a known defect: permutation never looks at r itself (only at
-   n and n - r), so a negative integer r is accepted: 5 nPr (-1) = 5!/6! *)
-Definition known_C10_npr_negative_r (r : brat) : bool :=
+(* n_factorial = n!; rhs.clone().apply_uint_op(|_, _| Ok(()), int)?;
+   n_minus_r_factorial = (n - r)!; n_factorial / n_minus_r_factorial *)
+Definition q_permutation (n r : brat) : res brat :=
+  do nf <- q_factorial n;
+  do _ <- apply_uint_op r (fun _ => Ok tt);
+  do nrf <- q_factorial (rat_add n (rat_neg r));
+  rat_div nf nrf.
+
+(* classifier of the defect repaired by 07532bc (documentation): permutation
+   never looked at r itself (only at n and n - r), so a negative integer r was
+   accepted: 5 nPr (-1) = 5!/6! *)
+Definition known_C10_npr_negative_r_old (r : brat) : bool :=
   match simplify r with
   | Ok s => (dval s =? 1) && rneg s && negb (nval s =? 0)
   | _ => false
